@@ -200,4 +200,49 @@ impl Tower {
         }
         self.from_flat(&cur, d)
     }
+
+    /// Relative norm of an element of depth d down to depth d-1 (closed forms for degrees 2 and 3).
+    pub fn norm_down(&self, a: &El) -> El {
+        let d = Self::depth_of(a);
+        assert!(d >= 1);
+        let beta = &self.levels[d - 1].nonresidue;
+        let El::X(c) = a else { unreachable!() };
+        match c.len() {
+            2 => self.sub(&self.mul(&c[0], &c[0]), &self.mul(beta, &self.mul(&c[1], &c[1]))),
+            3 => {
+                let cube = |x: &El| self.mul(&self.mul(x, x), x);
+                let o = self.one(d - 1);
+                let three = self.add(&self.add(&o, &o), &o);
+                self.sub(
+                    &self.add(&self.add(&cube(&c[0]), &self.mul(beta, &cube(&c[1]))), &self.mul(&self.mul(beta, beta), &cube(&c[2]))),
+                    &self.mul(&three, &self.mul(beta, &self.mul(&c[0], &self.mul(&c[1], &c[2])))),
+                )
+            },
+            k => panic!("norm_down: unsupported degree {k}"),
+        }
+    }
+    /// Quadratic character of an element of any depth: chi_{q^k}(x) = chi_p(N_{F_{q^k}/F_p}(x)).
+    /// Returns 0 for zero, 1 for squares, -1 for non-squares.
+    pub fn quadratic_character(&self, a: &El) -> i32 {
+        let mut cur = a.clone();
+        while let El::X(_) = cur {
+            cur = self.norm_down(&cur);
+        }
+        let El::P(v) = cur else { unreachable!() };
+        crate::legendre(&v, &self.p)
+    }
+    /// Euler criterion evaluated directly: x^((q-1)/2) in the model (slow; used to validate
+    /// `quadratic_character`).
+    pub fn euler_criterion(&self, a: &El) -> i32 {
+        let d = Self::depth_of(a);
+        if self.is_zero(a) {
+            return 0;
+        }
+        let e = (self.order(d) - UInt::one()) >> 1usize;
+        if self.pow(a, &e) == self.one(d) {
+            1
+        } else {
+            -1
+        }
+    }
 }
